@@ -235,3 +235,30 @@ def guarded(ck, fi, cfg, targets, atom_pred, rule, key, ok_msg, bad_msg, require
             p = edge_leads_only_to_raise(cfg, g, "f" if lab == "t" else "t", also_forbid=tl)
             ck.check(p is None, rule, key + "|failing-side-raises", fi.loc(cfg.nodes[g].ast), "the failing side of the guard only raises", raise_msg or (bad_msg + " (the failing side of the guard does not raise)"), witness(cfg, p))
     return len(tl)
+
+
+def roots_with_closure(fi: FuncInfo, e: ast.AST) -> set:
+    """Defs.roots of `e` in `fi`; names that are free in `fi` are followed into the enclosing functions (closures)."""
+    out = set()
+    cur, todo = fi, [e]
+    seen = set()
+    d = defs_of(cur)
+    for r in d.roots(e):
+        out.add(r)
+    frontier = {r for r in out if r.isidentifier()}
+    cur = getattr(fi, "parent", None)
+    while cur is not None and isinstance(getattr(cur, "node", None), (ast.FunctionDef, ast.AsyncFunctionDef)) and frontier:
+        dp = defs_of(cur)
+        nxt = set()
+        for nm in list(frontier):
+            if nm in seen:
+                continue
+            seen.add(nm)
+            if nm in dp.defs:
+                rs = dp.roots(ast.Name(id=nm, ctx=ast.Load()))
+                out |= rs
+                nxt |= {r for r in rs if r.isidentifier()}
+        frontier = (frontier | nxt) - seen if nxt else set()
+        frontier = {r for r in out if r.isidentifier()} - seen
+        cur = getattr(cur, "parent", None)
+    return out
